@@ -513,12 +513,17 @@ EnvExcused(b) ==
   /\ \/ (tr = "http" /\ ~closeSend /\ b[1] = "c" /\ b[2] \in {"Recv", "Header", "Invoke"})
      \/ (tr = "http" /\ ~closeSend /\ b[1] = "h" /\ b[2] \in {"Send", "SendHeader"})
 
+\* (C20's own clause: a sender on an in-process stream blocks "until the peer
+\* receives, the peer finishes, or the context ends" -- a send still parked
+\* at rest after that is reported for C20 as well)
 Chk_Quiesce(blocked) ==
   IF cctx = "live" /\ ~HReturned THEN {}
   ELSE UNION { IF EnvExcused(blocked[i]) THEN {}
                ELSE {<<IF cctx # "live" /\ blocked[i][1] = "c" /\ blocked[i][2] \in {"Recv", "Invoke"}
                        THEN "C04" ELSE "C05",
-                       "blocked-after-end">>} : i \in 1..Len(blocked) }
+                       "blocked-after-end">>}
+                    \cup (IF tr = "inproc" /\ blocked[i][2] = "Send"
+                          THEN {<<"C20", "sender-not-released">>} ELSE {}) : i \in 1..Len(blocked) }
 
 Chk_Panic == {<<"C05", "panic">>}
 Chk_Census(n) == V(n = 0, "C05", "goroutine-leak")
